@@ -17,14 +17,15 @@ import time
 # ------------------------------------------------------------------------------------------------ MIR dump
 
 
-def dump_mir(repo, scratch):
+def dump_mir(repo, scratch, features=None):
     src = os.path.join(scratch, "mir-repo")
     if os.path.exists(src):
         shutil.rmtree(src)
     subprocess.check_call(["rsync", "-a", "--exclude", "target", "--exclude", ".git", repo.rstrip("/") + "/", src + "/"])
     env = dict(os.environ, CARGO_NET_OFFLINE="true", CARGO_TARGET_DIR=os.path.join(scratch, "mir-target"))
     t0 = time.time()
-    p = subprocess.run(["cargo", "+nightly", "rustc", "--offline", "--lib", "--", "-Zunpretty=mir",
+    feat = ["--features", features] if features else []
+    p = subprocess.run(["cargo", "+nightly", "rustc", "--offline", "--lib"] + feat + ["--", "-Zunpretty=mir",
                         "-C", "debug-assertions=off", "-C", "overflow-checks=on"],
                        cwd=src, env=env, stdout=subprocess.PIPE, stderr=subprocess.PIPE, text=True)
     if p.returncode != 0 or len(p.stdout) < 1000:
@@ -327,12 +328,12 @@ def model_value(model_text, var):
 # ------------------------------------------------------------------------------------------------ native replay
 
 
-def native_eval(repo, scratch, exprs):
+def native_eval(repo, scratch, exprs, features=None):
     """Compile and run a tiny program against the real crate printing one line per expression."""
     d = os.path.join(scratch, "e2replay")
     os.makedirs(os.path.join(d, "src"), exist_ok=True)
     open(os.path.join(d, "Cargo.toml"), "w").write(
-        '[package]\nname = "e2replay"\nversion = "0.0.0"\nedition = "2021"\n[dependencies]\ntls-parser = { path = "%s" }\n[workspace]\n' % repo)
+        '[package]\nname = "e2replay"\nversion = "0.0.0"\nedition = "2021"\n[dependencies]\ntls-parser = { path = "%s"%s }\n[workspace]\n' % (repo, (', features = ["%s"]' % features) if features else ""))
     shutil.copy(os.path.join(repo, "Cargo.lock"), os.path.join(d, "Cargo.lock"))
     body = "\n".join('    println!("{}", %s);' % e for e in exprs)
     open(os.path.join(d, "src", "main.rs"), "w").write("#![allow(unused_imports)]\nuse tls_parser::*;\nfn main() {\n%s\n}\n" % body)
